@@ -159,10 +159,6 @@ package xmpp
 //@   ensures[C07] autoReply ==> handlerCalls == 1
 
 // An error that ends the session is never turned into a nil result.
-//@ func (*Session).sendError
-//@   requires err != nil
-//@   ensures[C08] e != nil
-
 //@ func (*Session).Serve
 //@   ghost lastErr error
 //@   callsite (context.Context).Done#1
@@ -397,6 +393,7 @@ package xmpp
 //@   ensures[C01,C02,C04] stepErr ==> err != nil
 //@   ensures[C01,C02,C04] err == nil && !server && mask & Ready != 0 && lastMask & Ready == 0 ==> forall k string :: has(list.cache, k) && !has(s.negotiated, k) && negotiable(list.cache[k].feature, s.state) ==> !list.cache[k].req
 //@   ensures[C01,C02,C04] err == nil && server && mask & Ready != 0 && lastMask & Ready == 0 ==> !list.req
+//@   ensures[C01,C02,C04] err == nil && rw != nil && lastMask & Ready == 0 ==> mask & Ready == 0
 //@   ensures[C01,C02,C04] s.state == old(s.state) | okMask
 //@   loop 1
 //@     invariant[C01,C02,C04] list != nil && list.cache != nil
@@ -552,3 +549,99 @@ package xmpp
 //@   ensures[C01,C02,C04] result.Necessary == Secure && result.Prohibited == Authn && result.Negotiate != nil
 //@ func bind
 //@   ensures[C01,C02,C04] result.Necessary == Authn && result.Prohibited == Ready && result.Negotiate != nil
+
+// ---------------------------------------------------------------------------
+// C10: closing is idempotent and final (sequential facet: what each entry
+// point does given the closed bit; interleavings are out of reach).
+//@ spec outClosed(st SessionState) bool = st & OutputStreamClosed == OutputStreamClosed
+
+//@ func (*Session).outputClosed
+//@   pure
+//@   ensures[C10] result == outClosed(s.state)
+
+// The closing tag is written exactly when the output was not closed before;
+// afterwards the closed bit is set; no other state bit changes.
+//@ func (*Session).closeSession
+//@   ghost wrote int = 0
+//@   callsite (*Session).Conn#1
+//@     preserves s.state
+//@   callsite mellium.im/xmpp/internal/stream.Close#1
+//@     assert[C10] !outClosed(old(s.state)) && wrote == 0
+//@     preserves s.state
+//@     after: wrote = wrote + 1
+//@   ensures[C10] s.state == old(s.state) | OutputStreamClosed
+//@   ensures[C10] outClosed(old(s.state)) ==> wrote == 0 && result == nil
+//@   ensures[C10] !outClosed(old(s.state)) ==> wrote == 1
+
+//@ func (*Session).Close
+//@   ensures[C10] outClosed(s.state)
+
+// Transmit entry points: nothing is handed to the encoder once the output is
+// closed, and the caller is told so.
+//@ func send
+//@   callsite foreign#*
+//@     preserves s.state
+//@   callsite setWriteDeadline#1
+//@     preserves s.state
+//@   callsite EncodeToken#*
+//@     assert[C10] !outClosed(s.state)
+//@     preserves s.state
+//@   callsite mellium.im/xmlstream.Copy#1
+//@     assert[C10] !outClosed(s.state)
+//@     preserves s.state
+//@   callsite Flush#1
+//@     assert[C10] !outClosed(s.state)
+//@     preserves s.state
+//@   ensures[C10] outClosed(old(s.state)) ==> result == ErrOutputStreamClosed
+
+//@ func (*Session).Encode
+//@   callsite foreign#*
+//@     preserves s.state
+//@   callsite setWriteDeadline#1
+//@     preserves s.state
+//@   callsite mellium.im/xmpp/internal/marshal.EncodeXML#1
+//@     assert[C10] !outClosed(s.state)
+//@     preserves s.state
+//@   ensures[C10] outClosed(old(s.state)) ==> result == ErrOutputStreamClosed
+
+//@ func (*Session).EncodeElement
+//@   callsite foreign#*
+//@     preserves s.state
+//@   callsite setWriteDeadline#1
+//@     preserves s.state
+//@   callsite mellium.im/xmpp/internal/marshal.EncodeXMLElement#1
+//@     assert[C10] !outClosed(s.state)
+//@     preserves s.state
+//@   ensures[C10] outClosed(old(s.state)) ==> result == ErrOutputStreamClosed
+
+//@ func (*lockWriteCloser).EncodeToken
+//@   callsite EncodeToken#1
+//@     assert[C10] !outClosed(lwc.w.state) && lwc.err == nil
+//@   ensures[C10] old(lwc.err) == nil && outClosed(old(lwc.w.state)) ==> result == ErrOutputStreamClosed
+//@   ensures[C10] old(lwc.err) != nil ==> result == old(lwc.err)
+
+//@ func (*lockWriteCloser).Flush
+//@   callsite Flush#1
+//@     assert[C10] !outClosed(lwc.w.state) && lwc.err == nil
+//@   ensures[C10] old(lwc.err) == nil && outClosed(old(lwc.w.state)) ==> result == ErrOutputStreamClosed
+
+// Reads after the input was closed fail with the input-closed error.
+//@ func (*lockReadCloser).Token
+//@   ensures[C10] old(lrc.err) == nil && old(lrc.s.state) & InputStreamClosed == InputStreamClosed ==> result1 == ErrInputStreamClosed && result0 == nil
+
+// A stream error is sent only on an open output, is followed by the closing
+// tag, and is on the wire before it (pending: written to the encoder but not
+// flushed).
+//@ func (*Session).sendError
+//@   requires err != nil
+//@   ghost pending bool = false
+//@   callsite foreign#*
+//@     preserves s.state
+//@   callsite (mellium.im/xmpp/stream.Error).WriteXML#*
+//@     assert[C10] !outClosed(s.state)
+//@     preserves s.state
+//@     after: pending = true
+//@   callsite (*Session).closeSession#*
+//@     assert[C10] !pending
+//@   ensures[C08,C10] e != nil
+//@   ensures[C10] outClosed(old(s.state)) ==> e == err && s.state == old(s.state)
